@@ -157,6 +157,91 @@ def gen_cases(ctx, exe, S, only=None, seeds=None):
     return cases
 
 
+def aux_sweep(ctx, exe, S, only=None):
+    """every auxiliary buffer of a function (mac, iv, header, key, src2, len pointer, …) swept across and around the
+       region it can hurt: an auxiliary INPUT over the primary output (aux = dest + m, m in [-len_aux, count + 16]),
+       an auxiliary OUTPUT over the primary input; for several dest-vs-src shifts (apart, identical, +-1, +-8, +-len_aux,
+       +-16), every other buffer apart; pairs the header excludes are never overlapped (but placed adjacent).  Inputs that
+       must be valid (tokens, DER) keep their contents: the swept buffer is written first."""
+    rng, tier = ctx.rng, ctx.tier
+    cases = []
+    for fn, spec in S.SPEC.items():
+        if only and fn not in only:
+            continue
+        bufs = spec["bufs"]
+        if len(bufs) < 3 or spec.get("word") or spec.get("same_or_disjoint"):
+            continue
+        scs = spec["scal"](rng, tier)
+        scs = [sc for sc in scs if all(bufs[b][1](sc) <= 64 for b in bufs)] or scs[:1]
+        if tier == "quick" and len(scs) > 2:
+            scs = sorted(scs, key=lambda sc: sum(bufs[b][1](sc) for b in bufs))
+            scs = [scs[0], scs[len(scs) // 2]]
+        elif len(scs) > 5:
+            scs = rng.sample(scs, 5)
+        al = {b: (4 if b in spec.get("align4", ()) else 2 if b in spec.get("align2", ()) else 1) for b in bufs}
+        po, pi = spec["primary"]
+        forbid = [tuple(f) for f in spec["forbid"]]
+        for sc in scs:
+            prep = None
+            if "prepare" in spec:
+                op, ex = spec["prepare"](rng, sc)
+                prep = ex(run_robust(ctx, exe, [op])[0])
+            size = {b: bufs[b][1](sc) for b in bufs}
+            contents = {}
+            if "fill" in spec:
+                contents.update(spec["fill"](rng, sc, prep))
+            if prep:
+                contents.update({k: v for k, v in prep.items() if v is not None})
+            for aux in bufs:
+                if aux in (po, pi) or size[aux] == 0:
+                    continue
+                la = size[aux]
+                target = po if bufs[aux][0] == "in" else pi
+                lt = size[target]
+                if lt == 0:
+                    continue
+                shifts = [None, 0, 1, -1, 8, -8, la, -la, 16, -16] if tier != "quick" else [None, 0, -8, 8, -la, la, 1]
+                for sh in dict.fromkeys(shifts):
+                    base = la + 48 + max(size[po], size[pi])
+                    a_in = base
+                    a_out = base + (sh if sh is not None else size[pi] + 40)
+                    if a_out % al[po] or a_in % al[pi]:
+                        continue
+                    taddr = a_out if target == po else a_in
+                    ms = list(range(-la, lt + 17))
+                    if tier == "quick" and len(ms) > 90:
+                        must = set(range(-la, -la + 3)) | set(range(-2, 3)) | set(range(lt - la - 2, lt - la + 3)) | set(range(lt - 2, lt + 3)) | {lt + 16}
+                        ms = sorted(x for x in (must | set(rng.sample(ms, 40))) if -la <= x <= lt + 16)
+                    for m in ms:
+                        addr = {pi: a_in, po: a_out, aux: taddr + m}
+                        if addr[aux] < 0 or addr[aux] % al[aux]:
+                            continue
+                        hi = max(addr[b] + size[b] for b in addr) + 16
+                        for b in bufs:
+                            if b not in addr:
+                                while hi % al[b]:
+                                    hi += 1
+                                addr[b] = hi
+                                hi += size[b] + 8
+                        if any(x in addr and y in addr and S.intersects(addr[x], size[x], addr[y], size[y]) for x, y in forbid):
+                            continue
+                        # two outputs over each other make no sense
+                        outs = [b for b in bufs if bufs[b][0] != "in"]
+                        if any(S.intersects(addr[x], size[x], addr[y], size[y]) for i, x in enumerate(outs) for y in outs[i + 1:]):
+                            continue
+                        arena = bytearray(rng.randbytes(hi + 8))
+                        order = [aux] + [b for b in contents if b != aux]
+                        for b in order:
+                            if b in contents and b in addr:
+                                d = contents[b]
+                                arena[addr[b]:addr[b] + min(len(d), size[b]) if not (b == "val" and fn == "derTPSTREnc") else addr[b] + len(d)] = \
+                                    d[:size[b]] if not (b == "val" and fn == "derTPSTREnc") else d
+                        c = S.Case(fn, spec, sc, addr, bytes(arena))
+                        c.off, c.aux = (sh if sh is not None else 9999), "sweep:" + aux
+                        cases.append(c)
+    return cases
+
+
 def memjoin_sweep(ctx, S):
     """all placements of (dest, src1, src2) in a small arena for memJoin"""
     rng = ctx.rng
@@ -656,7 +741,7 @@ def run(ctx):
     exe = ctx.cc("harness/c11.c", "asan")
 
     # ---- generate placements; pass 1: disjoint calls on the implementation
-    cases = corpus_cases(S) + regression_cases(ctx, exe, S) + gen_cases(ctx, exe, S) + memjoin_sweep(ctx, S) + S.math_cases(ctx.rng, ctx.tier)
+    cases = corpus_cases(S) + regression_cases(ctx, exe, S) + gen_cases(ctx, exe, S) + aux_sweep(ctx, exe, S) + memjoin_sweep(ctx, S) + S.math_cases(ctx.rng, ctx.tier)
     H = _hl()
     exe_hl = ctx.cc("harness/c11_hl.c", "asan")
     hcases = hl_cases(ctx, exe_hl, S, H, tolerated=H.tolerated())
